@@ -29,13 +29,13 @@ def are_matrices_equivalent_up_to_global_phase(
     Returns:
         Whether two matrices are equivalent up to a global phase.
     """
-    first_non_zero = next(
-        (i, j) for i in range(matrix_a.shape[0]) for j in range(matrix_a.shape[1]) if abs(matrix_a[i, j]) > ATOL
-    )
+    # Take the global phase from the entry of largest magnitude: an entry that is only just above the tolerance gives
+    # a badly conditioned phase (its relative error is amplified on every other entry).
+    reference = np.unravel_index(np.argmax(np.abs(matrix_a)), matrix_a.shape)
 
-    if abs(matrix_b[first_non_zero]) < ATOL:
+    if abs(matrix_a[reference]) < ATOL or abs(matrix_b[reference]) < ATOL:
         return False
 
-    phase_difference = matrix_a[first_non_zero] / matrix_b[first_non_zero]
+    phase_difference = matrix_a[reference] / matrix_b[reference]
 
     return np.allclose(matrix_a, phase_difference * matrix_b)
